@@ -209,6 +209,14 @@ class Interp:
             if _plain(v):
                 return -v
             return Sym("neg", v)
+        if isinstance(op, ast.Invert):
+            if isinstance(v, bool):
+                raise AnalysisError("bitwise ~ on a python bool")
+            if isinstance(v, int):
+                return ~v
+            return Sym("invert", v)
+        if isinstance(op, ast.UAdd):
+            return v
         raise AnalysisError(f"unary {type(op).__name__} not in vocabulary")
 
     def truth(self, v, node):
@@ -259,6 +267,8 @@ class Interp:
             return list(v)
         if isinstance(v, range):
             return list(v)
+        if isinstance(v, Count):
+            return v.gen(self.max_loop)
         raise AnalysisError(f"cannot iterate {v!r} (line {getattr(node, 'lineno', '?')})")
 
     def on_raise(self, exc_value, node):
@@ -442,6 +452,14 @@ class Interp:
             for t in s.targets:
                 if isinstance(t, ast.Subscript):
                     c = self.eval(t.value, env, mod)
+                    if isinstance(t.slice, ast.Slice):
+                        lo = self.eval(t.slice.lower, env, mod) if t.slice.lower else None
+                        hi = self.eval(t.slice.upper, env, mod) if t.slice.upper else None
+                        st = self.eval(t.slice.step, env, mod) if t.slice.step else None
+                        if not isinstance(c, list) or not all(x is None or (isinstance(x, int) and not isinstance(x, bool)) for x in (lo, hi, st)):
+                            raise AnalysisError(f"del of a symbolic slice (line {t.lineno})")
+                        del c[slice(lo, hi, st)]
+                        continue
                     k = self.eval(t.slice, env, mod)
                     self.del_item(c, k, t)
                 elif isinstance(t, ast.Name):
@@ -481,6 +499,19 @@ class Interp:
         if isinstance(t, ast.Name):
             env[t.id] = v
         elif isinstance(t, (ast.Tuple, ast.List)):
+            stars = [i for i, e in enumerate(t.elts) if isinstance(e, ast.Starred)]
+            if stars:
+                if len(stars) > 1 or not isinstance(v, (list, tuple)):
+                    raise AnalysisError("starred assignment outside vocabulary")
+                k = stars[0]
+                after = len(t.elts) - k - 1
+                if len(v) < len(t.elts) - 1:
+                    self.on_raise(Sym("exc", "ValueError", "unpack"), t)
+                seq = list(v)
+                items = seq[:k] + [seq[k:len(seq) - after]] + (seq[len(seq) - after:] if after else [])
+                for sub, x in zip(t.elts, items):
+                    self.assign(sub.value if isinstance(sub, ast.Starred) else sub, x, env, mod)
+                return
             items = self.unpack(v, len(t.elts), t)
             for sub, x in zip(t.elts, items):
                 self.assign(sub, x, env, mod)
@@ -776,6 +807,23 @@ class Interp:
             if isinstance(args[0], (list, tuple, dict, set, str, frozenset)):
                 return len(args[0])
             return self.sym_len(args[0], node)
+        if name == "next":
+            # generator expressions are evaluated eagerly into lists: next(gen[, default]) is its first element
+            seq = args[0]
+            if isinstance(seq, (list, tuple)):
+                if seq:
+                    return seq[0]
+                if len(args) > 1:
+                    return args[1]
+                self.on_raise(Sym("exc", "StopIteration"), node)
+            raise AnalysisError("next() on a non-list iterator")
+        if name == "iter":
+            raise AnalysisError("explicit iterators not in vocabulary")
+        if name in ("int", "float", "abs"):
+            a = args[0] if args else 0
+            if isinstance(a, bool) or (isinstance(a, (int, float)) and not isinstance(a, bool)):
+                return {"int": int, "float": float, "abs": abs}[name](a)
+            return Sym(name, a)
         if name == "isinstance":
             return self.isinstance(args[0], args[1], node)
         if name == "enumerate":
@@ -869,8 +917,26 @@ class Interp:
                 return None
             if name == "sort":
                 raise AnalysisError("list.sort on symbolic list")
+            if name == "reverse":
+                c.reverse()
+                return None
+            if name == "remove":
+                for i, x in enumerate(c):
+                    if x is args[0] or x == args[0]:
+                        del c[i]
+                        return None
+                self.on_raise(Sym("exc", "ValueError"), node)
+            if name == "count":
+                return sum(1 for x in c if x is args[0] or x == args[0])
+            if name == "popleft" and isinstance(c, Deque):
+                if not c:
+                    self.on_raise(Sym("exc", "IndexError"), node)
+                return c.pop(0)
+            if name == "appendleft" and isinstance(c, Deque):
+                c.insert(0, args[0])
+                return None
             if name == "copy":
-                return list(c)
+                return type(c)(c)
             if name == "index":
                 for i, x in enumerate(c):
                     if x is args[0] or x == args[0]:
@@ -908,7 +974,27 @@ class Interp:
                 return None
             if name == "pop":
                 return c.pop()
+        if not hasattr(type(c), name):
+            self.on_raise(Sym("exc", "AttributeError", f"'{type(c).__name__}' object has no attribute '{name}'"), node)
         raise AnalysisError(f"container method {name} not in vocabulary")
+
+
+class Count:
+    """itertools.count(start): iterated lazily up to the interpreter's loop bound."""
+
+    def __init__(self, start=0, step=1):
+        self.start, self.step = start, step
+
+    def gen(self, bound):
+        i = self.start
+        for _ in range(bound):
+            yield i
+            i += self.step
+        raise AnalysisError("loop bound exceeded while iterating itertools.count")
+
+
+class Deque(list):
+    """collections.deque without maxlen: a list with popleft / appendleft."""
 
 
 class _Box:
@@ -964,9 +1050,9 @@ _BINSYM = {ast.Add: "add", ast.Sub: "sub", ast.Mult: "mul", ast.Div: "div"}
 _BUILTINS = {
     "len", "isinstance", "enumerate", "reversed", "range", "list", "tuple", "set", "dict",
     "zip", "any", "all", "min", "max", "bool", "str", "id", "sorted", "map", "print",
-    "hasattr", "getattr",
+    "hasattr", "getattr", "next", "int", "float", "abs", "iter",
 }
 _CONTAINER_METHODS = {
     "append", "pop", "clear", "extend", "insert", "sort", "copy", "index", "items", "keys",
-    "values", "get", "update", "setdefault", "add",
+    "values", "get", "update", "setdefault", "add", "reverse", "remove", "count", "popleft", "appendleft",
 }
